@@ -10,7 +10,7 @@ NOTE = ("Trusted base: rustc nightly MIR dump of /repo's working tree, the mirsy
         "natively compiled crate first; a sample of passing paths is re-run natively and must agree. Nothing is claimed outside the stated bounds.")
 
 CLAIMED = {
-    "C01": ("Tree level: RevisionTree built by add / unvalidated_add+validate in every order of learning equals the rule for all record sets up to 3 records (quick: digests in {a,b,r} and one hash order for 3 records; thorough: all hash orders and [0-9a-z] digests). Melda level, executed from MIR: "
+    "C01": ("Tree level: RevisionTree built by add / unvalidated_add+validate in every order of learning equals the rule for all record sets up to 3 records (quick: digests in {a,b,r} and one hash order for 3 records; thorough: forward and reverse hash orders, [0-9a-z] digests). Melda level, executed from MIR: "
             "every symbolic sequence of up to 3 operations (thorough: 6 instead of 3 document versions) over {update, commit (+reopen comparison), meld+refresh in both directions, unstage, delete_object, stage_full_snapshot, resolve_as, reload} "
             "on two replicas followed by exchange to a fixpoint: both replicas, a replica fed by plain file copy with refreshes at symbolic points and a replica opened by one reload expose the same state; "
             "all delivery orders of a 2-commit history; identical revisions in two blocks; mixed file-copy + meld routes; a pack first seen half copied.", "DESIGN.md §5 C01"),
